@@ -1,11 +1,158 @@
-"""C02 - Pipeline aggregation and slicing equal a brute-force group-by (bounded stand-ins; contracts to be added)."""
+"""C02 - Pipeline aggregation and slicing equal a brute-force group-by.
+
+Under contract: the flat sequence case of `tree.apply_mask` (the step that restricts an aggregate's inputs to
+the rows of one slice).  The grouping itself (Slicer row->mask construction, TransformRunner.update_state /
+get_result: closures, generators and dicts of states) is decided by exhaustive native stand-ins, reported
+as bounded."""
+import z3
+from pyvc.contracts import Contract
+from pyvc.values import *   # pylint: disable=wildcard-import
+
 P = 'C02'
+TR = 'ml_metrics/_src/chainables/tree.py'
+kept_fn = z3.Function('kept_before', z3.IntSort(), z3.IntSort())   # ghost: number of True masks before position i
+
+
+def _setup(it, env):
+  m = env['masks'].seq
+  i = z3.Int(it.path.fresh_name('i'))
+  # definition of the ghost counting function (definitional extension)
+  it.assume(kept_fn(0) == 0)
+  it.assume(z3.ForAll([i], kept_fn(i + 1) == kept_fn(i) + z3.If(z3.Select(m.arr, i), 1, 0)))
 
 
 def register(R):
+  @R.spec
+  def kept_before(it, a, k):
+    return VInt(kept_fn(it.to_int(a[0])))
+
+  T = dict(items='list[obj]', masks='list[bool]')
+  R.add(Contract(
+      f'{TR}::apply_mask', P, variant='filter', types=dict(T, replace_false_with="const:'DEFAULT_FILTER'"), ret='list[obj]', setup=_setup,
+      raises={'ValueError': 'len(items) != len(masks)'},
+      # exactly the elements whose mask is True, in order, each once
+      ensures=['len(result) == kept_before(len(items))',
+               'forall(lambda i: implies(masks[i], result[kept_before(i)] is items[i]), 0, len(items))'],
+      loops={0: dict(invariant=[
+          'len(result) == kept_before(idx_elem)', 'idx_elem >= 0',
+          'forall(lambda i: kept_before(i) + ite(masks[i], 1, 0) <= kept_before(idx_elem) and 0 <= kept_before(i), 0, idx_elem)',
+          'forall(lambda i: implies(masks[i], result[kept_before(i)] is items[i]), 0, idx_elem)'])},
+      bounded='bounded_masks',
+      note='filter mode: the masked sequence is exactly the sub-sequence of the rows of the slice (no row invented, dropped, duplicated or reordered)'))
+  R.add(Contract(
+      f'{TR}::apply_mask', P, variant='replace', types=dict(T, replace_false_with='int'), ret='list[obj]',
+      raises={'ValueError': 'len(items) != len(masks)'},
+      # same length; rows of the slice kept, every other row replaced
+      ensures=['len(result) == len(items)',
+               'forall(lambda i: implies(masks[i], result[i] is items[i]), 0, len(items))',
+               'forall(lambda i: implies(not masks[i], result[i] == replace_false_with), 0, len(items))'],
+      loops={0: dict(invariant=[
+          'len(result) == idx_elem', 'idx_elem >= 0',
+          'forall(lambda i: implies(masks[i], result[i] is items[i]), 0, idx_elem)',
+          'forall(lambda i: implies(not masks[i], result[i] == replace_false_with), 0, idx_elem)'])},
+      bounded='bounded_masks',
+      note='replace mode: positions are preserved, rows outside the slice hold the replacement value'))
+
+  # ---- per-slice aggregation states -----------------------------------------------------------------------------------
+  TF = 'ml_metrics/_src/chainables/tree_fns.py'
+  TM = 'ml_metrics/_src/chainables/transform.py'
+  R.value_classes['MetricKey'] = ['metrics', 'slice']
+  R.value_classes['SliceKey'] = ['features', 'values']
+  R.cls('MetricKey', dict(metrics='obj', slice='obj'), frozen=True)
+  R.cls('SliceKey', dict(features='obj', values='obj'), frozen=True)
+  # an aggregate operator, abstractly: which aggregate (fn_id), the masks and replacement it applies to its inputs
+  R.cls('TreeAggregateFn', dict(fn_id='obj', masks='tuple[obj]', replace_mask_false_with='obj', disable_slicing='bool'), frozen=True)
+  R.cls('Slicer', dict(replace_mask_false_with='obj', sid='obj'), frozen=True)
+  R.cls('TransformRunner', dict(name='obj'), frozen=True)
+  upd = z3.Function('agg_update', Obj, Obj, Obj, Obj, Obj, Obj)     # (aggregate, mask, replacement, state, inputs) -> state
+  init = z3.Function('agg_init', Obj, Obj)
+  from pyvc.interp import pair_fst, pair_snd
+
+  @R.spec
+  def updated(it, a, k):
+    fn, mask, repl, state, inputs = [it.to_obj(x) for x in a]
+    return VOpaque(upd(fn, mask, repl, state, inputs))
+
+  @R.spec
+  def initial(it, a, k):
+    return VOpaque(init(it.to_obj(a[0])))
+
+  @R.spec
+  def fst(it, a, k):
+    return VOpaque(pair_fst(it.to_obj(a[0])))
+
+  @R.spec
+  def snd(it, a, k):
+    return VOpaque(pair_snd(it.to_obj(a[0])))
+
+  # ASSUMED (trusted): the wrapped aggregate is a function of (aggregate, mask, replacement, state, inputs); masks of
+  # one element; __post_init__ keeps tuple masks; a slicer yields (slice key, (mask,)) pairs with pairwise distinct
+  # slice keys, none of them the default (unsliced) SliceKey().
+  R.add(Contract(f'{TF}::TreeAggregateFn.update_state', 'trusted', types=dict(self='TreeAggregateFn', state='obj', inputs='obj'), ret='obj',
+                 may_raise=['ValueError'],
+                 ensures=['result is updated(self.fn_id, self.masks[0], self.replace_mask_false_with, state, inputs)']))
+  R.add(Contract(f'{TF}::TreeAggregateFn.create_state', 'trusted', types=dict(self='TreeAggregateFn'), ret='obj',
+                 ensures=['result is initial(self.fn_id)']))
+  R.add(Contract(f'{TF}::TreeAggregateFn.__post_init__', 'trusted', types=dict(self='TreeAggregateFn')))
+
+  def _slices_post(it, env2, old):
+    res = env2['result']
+    i, j = z3.Int(it.path.fresh_name('i')), z3.Int(it.path.fresh_name('j'))
+    key = lambda t: pair_fst(z3.Select(res.arr, t))
+    default = it.to_obj(it.spec_val('SliceKey()', {'__module__': it.world.module(TF)}))
+    it.assume(z3.ForAll([i, j], z3.Implies(z3.And(0 <= i, i < j, j < res.n), key(i) != key(j))))
+    it.assume(z3.ForAll([i], z3.Implies(z3.And(0 <= i, i < res.n), key(i) != default)))
+    return res
+
+  R.add(Contract(f'{TF}::Slicer.iterate_and_slice', 'trusted', types=dict(self='Slicer', inputs='obj'), ret='seq[obj]', post_hook=_slices_post))
+
+  R.add(Contract(
+      f'{TF}::TreeFn.with_masks', P, types=dict(self='TreeAggregateFn', masks='tuple[obj]', replace_mask_false_with='obj'), ret='TreeAggregateFn',
+      ensures=['result.masks[0] is masks[0]', 'result.replace_mask_false_with is replace_mask_false_with',
+               'result.fn_id is self.fn_id', 'result.disable_slicing == self.disable_slicing', 'result is not self'],
+      bounded='bounded_groupby',
+      note='the operator for a slice applies exactly the masks and the replacement value of THAT slice (nothing is inherited from the previous one)'))
+
+  def _runner_setup(it, env):
+    fn = it.fresh('TreeAggregateFn', 'agg')
+    slicer = it.fresh('Slicer', 'slicer')
+    env['self'].f['agg_fns'] = VDict({'k': fn})
+    env['self'].f['slicers'] = VList([slicer])
+    it.ghost['fn0'], it.ghost['slicer0'] = fn, slicer
+
+  SLICES = "last_result('Slicer.iterate_and_slice')"
+  def sliced(upto):
+    """the clauses describing the state after the first `upto` slices of the batch"""
+    return [
+        # the unsliced aggregate saw the whole batch, through the operator as configured (never a slice mask)
+        "MetricKey('k') in state",
+        "state[MetricKey('k')] is updated(fn0.fn_id, fn0.masks[0], fn0.replace_mask_false_with, old(state[MetricKey('k')]), inputs)",
+        # every slice key emitted for this batch has a state: the previous one (or a fresh one) updated with the batch
+        # restricted by exactly that slice's mask and the slicer's replacement value
+        f"forall(lambda t: MetricKey('k', fst({SLICES}[t])) in state and state[MetricKey('k', fst({SLICES}[t]))] is updated("
+        f"fn0.fn_id, snd({SLICES}[t])[0], slicer0.replace_mask_false_with, "
+        f"ite(MetricKey('k', fst({SLICES}[t])) in old(state), old(state)[MetricKey('k', fst({SLICES}[t]))], initial(fn0.fn_id)), inputs), 0, {upto})",
+        # no other key is created, dropped or changed
+        f"forall(lambda x: implies(x is not MetricKey('k') and forall(lambda t: x is not MetricKey('k', fst({SLICES}[t])), 0, {upto}),"
+        " (x in state) == (x in old(state)) and state[x] is old(state)[x]), 'obj')",
+    ]
+
+  R.add(Contract(
+      f'{TM}::TransformRunner.update_state', P, variant='one-aggregate-one-slicer',
+      types=dict(self='TransformRunner', state='map[obj,obj]', inputs='obj'), ret='map[obj,obj]', setup=_runner_setup,
+      requires=["MetricKey('k') in state", 'not fn0.disable_slicing'], modifies=['state'],
+      may_raise=['KeyError', 'ValueError'],
+      ensures=['result is state'] + sliced(f'len({SLICES})'),
+      loops={2: dict(invariant=['tree_agg_fn.fn_id is fn0.fn_id', 'idx_slice_key >= 0'] + sliced('idx_slice_key'),
+                     retype={'tree_agg_fn': 'TreeAggregateFn'})},
+      bounded='bounded_groupby',
+      note='one batch: the unsliced state is updated with the unmasked batch; each emitted slice key gets exactly its own masked update '
+           '(created on first appearance); no key is invented, dropped or touched otherwise'))
+
   R.bounded_checks[P] = [
-      ('bounded_groupby', 'empty stream and 1/3/6 rows in every split into <=3 batches x every set of <=2 slicers (single feature, cross, fan-out, within-values) x one/two stacked/unsliced-first aggregates vs brute-force group-by: no key invented or dropped, values equal, unsliced result independent of the slicers'),
+      ('bounded_groupby', 'aggregates {Sum, SumCount(2 outputs), stacked} x slicer sets {none, single, cross, fan-out fn, restricted values, late-appearing slice, replace-mode} x streams of <=3 batches (incl. empty stream) vs a brute-force group-by'),
       ('bounded_sharded_merge', 'shard states merged = whole run (also per slice); strict state count errors'),
-      ('bounded_masks', 'tree.apply_mask on all boolean masks (flat, nested with empty inner lists, dict), filter and replace mode; intra-example slice masks through the pipeline'),
+      ('bounded_masks', 'apply_mask filter/replace over nested dict/list masks vs a reference; intra-example masks through an aggregate'),
   ]
-  R.trusted[P] = ['bounded: small-scope hypothesis (<=6 rows, <=3 batches, <=2 slicers)', 'brute-force group-by oracle in plain Python']
+  R.trusted[P] = ['bounded: small-scope hypothesis', 'oracle: brute-force group-by in plain Python',
+                  'apply_mask contract: flat list items with a flat list of Boolean masks (nested masks, numpy masks and dict masks: bounded only)']
